@@ -164,7 +164,7 @@ META["C11"] = {
     "parts": 3,
     "tiers": {
         "quick": {"shards": 3, "deadline_s": 300,
-                  "bounds": "bins_x in {1,2,3,5} x bins_y in {1,2,3} x 7 ranges ([0,1],[-1,1],[-3,-1],[2,5],[0,1e-6],[-1e6,1e6],[0.1,0.7]); every (x,y) pair from: every edge and its two neighbours, every mid point, below/above by one span, far outside (1e10 spans, +-1e19, 1e30, +-max), quotient just above 2^64, +-inf, NaN; three distributions filled in the same call (1-d in x, 2-d in (x,y), 1-d in y); PLAIN, VEGAS (grid [0,1/8,1/4,1]) and MULTI-CHANNEL (weights 1/2,1/8,3/8, jacobian 1+y); 9-call differential runs per bin; 3 types"},
+                  "bounds": "bins_x in {1,2,3,5} x bins_y in {1,2,3} x 7 ranges ([0,1],[-1,1],[-3,-1],[2,5],[0,1e-6],[-1e6,1e6],[0.1,0.7]); every (x,y) pair from: every edge and its two neighbours, every mid point, below/above by one span, far outside (1e10 spans, +-1e19, 1e30, +-max), quotient just above 2^64, +-inf, NaN; three distributions filled in the same call (1-d in x, 2-d in (x,y), 1-d in y); PLAIN, VEGAS (grid [0,1/8,1/4,1]) and MULTI-CHANNEL (weights 1/2,1/8,3/8, jacobian 1+y); 9-call differential runs per bin; part C: the differential runs through mpi_plain / mpi_vegas / mpi_multi_channel with 2 and 3 ranks under the MPI environment model (2 and 4 bins, 6 value patterns); 3 types"},
         "thorough": {"shards": 3, "deadline_s": 900, "bounds": "same as quick (the enumeration is complete at this bound)"},
     },
     "rule": "nested enumeration of binnings x coordinate pairs, one scripted projection per single-call iteration; reference bin = floor((x-min)/size) in __float128 on the stored parameters; non-trivial = every case; distinct = distinct (configuration, x, y)",
@@ -300,14 +300,16 @@ META["C04"] = {
 
 META["C18"] = {
     "level": "fault_enumeration",
+    "technique": "exhaustive crash-point enumeration on the real write path (every logged file-system operation x every byte prefix of the write in flight, validated against real kills) and, for several MPI processes, explicit-state search over all interleavings of the ranks' recorded file operations on an inode-level directory model",
     "tiers": {
         "quick": {"shards": 3, "deadline_s": 400,
-                  "bounds": "PLAIN (about 300 byte checkpoints), VEGAS 128 bins x 4 dimensions (about 13 kB per result, several write calls per checkpoint), MULTI-CHANNEL 30 channels; 3 iterations; silent_and_write_chkpt and verbose_and_write_chkpt; file absent or holding an older (empty) checkpoint, with and without a partial temporary file left behind by an earlier killed run, with the first or second rename of the run failing (injected ENAMETOOLONG), with the callback instantiated for the checkpoint's base type, and with a checkpoint file named 'run.tmp'; every position in the operation log (failed calls included) and every byte prefix of every write; real-kill validation at every log position with byte prefixes {0, 1, middle, last}; 3 types"},
+                  "bounds": "PLAIN (about 300 byte checkpoints), VEGAS 128 bins x 4 dimensions (about 13 kB per result, several write calls per checkpoint), MULTI-CHANNEL 30 channels; 3 iterations; silent_and_write_chkpt and verbose_and_write_chkpt; file absent or holding an older (empty) checkpoint, with and without a partial temporary file left behind by an earlier killed run, with the first or second rename of the run failing (injected ENAMETOOLONG), with the callback instantiated for the checkpoint's base type, and with a checkpoint file named 'run.tmp'; every position in the operation log (failed calls included) and every byte prefix of every write; real-kill validation at every log position with byte prefixes {0, 1, middle, last}; family G: mpi_callback with 2 and 3 ranks under the MPI environment model (PLAIN; for 2 ranks also 30-channel MULTI-CHANNEL and VEGAS), both writing modes, file absent or pre-existing: every interleaving of the ranks' file operations within an iteration on an inode-level directory model (states hashed), every state judged, plus the first byte and half of every write in flight; 3 types"},
         "thorough": {"shards": 3, "deadline_s": 1800, "bounds": "as quick with real-kill validation at every 97th byte of every write"},
     },
     "rule": "fault enumeration over crash points: (operation index, bytes of the write in flight); byte prefixes of a write to a file other than the checkpoint file leave the checkpoint file unchanged and are counted once per operation; distinct = distinct crash points whose checkpoint-file content was judged; non-trivial = every crash point",
     "assumptions": [
         "kill model of the property: every completed system call persists, the call in flight may be cut at any byte; power loss (unsynced data disappearing) is not modelled",
+        "family G: between two collectives the ranks are unordered, file operations of different iterations cannot overlap (the next callback lies behind the next MPI_Allreduce); a rank's operation sequence does not depend on what the other ranks do to the directory (true for open-truncate/write/close/rename sequences; a rank that reads the directory would need a re-run per interleaving); byte prefixes of a write in flight: first byte and half of the buffer",
         "the interposer sees fopen/fopen64/open/open64/openat/creat, write/writev/pwrite (each with the position it writes at), fclose/close, rename/renameat, unlink/remove, truncate/ftruncate, fsync/fdatasync and getpid (owned by the harness while a scenario runs); C stdio streams opened by the code under test get custom I/O functions (fopencookie) so that glibc's buffering is kept while every flush goes through the logged write; failed calls are logged as kill points without effect; directory descriptors are tracked; a run whose real directory differs from the state predicted from the log ends with a harness error (exit 2), never a silent pass",
     ],
 }
